@@ -20,6 +20,7 @@ def staticRule (A : Arch) (L : List Module) (la : Nat) (first : Bool) : Option A
       | .exec r => some r
       | .staticErr => some A.fallback
       | .generic _ => none
+      | .pe _ => none
 
 /-- The miss path inserts exactly `staticRule`, and when it inserts a rule its outcome is the
 execution of that rule: what is cached never depends on registers or memory. -/
@@ -44,6 +45,9 @@ theorem missPath_static (A : Arch) (u : Unw) (addr : FrameAddr) (regs : A.Regs) 
       | generic row =>
         simp only []
         cases A.generic row (!addr.isReturn) regs mem <;> simp
+      | pe p =>
+        simp only []
+        cases A.peRun p (!addr.isReturn) regs mem <;> simp
 
 theorem lookup_empty {Rule : Type} (N a g : Nat) :
     ((Cache.empty : Cache Rule).lookup N a g).2 = .miss := by
